@@ -96,6 +96,7 @@ static std::string run_read_job(const Job& j) {
     std::string out = "R " + j.id + " " + cls + " " + res + "\n";
     if (cls == "ok") {
         std::string d = dump.str();
+        if (d.rfind("MHUGE", 0) == 0) { out += d; return out; }
         if (j.same_as && d == *j.same_as) out += "MSAME\n"; else out += d;
     }
     return out;
@@ -113,6 +114,42 @@ static void run_jobs(std::vector<Job>& jobs, std::ostream& os) {
 
 #include "io_mut.hh"
 
+// write faults: a sink that fails after `p` bytes must make ovmb_write return something other than Ok (C18)
+template<class M> static std::string wfault_one(const GenJob& g, uint64_t seed) {
+    std::ostringstream os;
+    vh::Rng r(vh::mix(vh::mix(seed, (uint64_t)g.kind), 1000 + g.idx));
+    M m; build(m, g.kind, g.rc, r);
+    Bytes full; std::string wres = write_mesh(m, full);
+    if (wres != "Ok") { os << "WF " << g.id << " -1 0 " << wres << " 0 0\n"; return os.str(); }
+    std::set<size_t> ps;
+    size_t n = full.size();
+    if (n <= 1200) for (size_t p = 0; p <= n; ++p) ps.insert(p);
+    else {
+        Layout L = parse_layout(full);
+        for (auto& c : L.chunks) for (long d = -2; d <= 18; ++d) { long p = (long)c.off + d; if (p >= 0 && (size_t)p <= n) ps.insert((size_t)p); }
+        for (size_t p = 0; p < 50; ++p) ps.insert(p);
+        for (size_t p = 0; p < n; p += (n / 60) + 1) ps.insert(p);
+        for (size_t p = n - 20; p <= n; ++p) ps.insert(p);
+    }
+    size_t k = 0;
+    for (size_t p : ps) {
+        int style = (k++ % 7 == 3) ? 1 : 0;
+        Bytes out; std::string res = write_mesh(m, out, (long)p, style);
+        bool prefix = out.size() <= full.size() && std::equal(out.begin(), out.end(), full.begin());
+        os << "WF " << g.id << ' ' << p << ' ' << style << ' ' << res << ' ' << out.size() << ' ' << n << ' ' << (prefix ? "prefix" : "NOTPREFIX") << '\n';
+    }
+    return os.str();
+}
+static void mode_wfaults(bool thorough, uint64_t seed, int shard, int nshards, std::ostream& os) {
+    auto all = gen_jobs(thorough, seed, 0, 1);
+    std::vector<GenJob> jobs;
+    for (size_t i = 0; i < all.size(); ++i) if (all[i].gcvariant < 0 && !all[i].forced && (int)(i % (size_t)nshards) == shard) jobs.push_back(all[i]);
+    iso::run_all(jobs.size(),
+        [&](size_t i) { auto& g = jobs[i]; return g.kind == 't' ? wfault_one<TM>(g, seed) : g.kind == 'h' ? wfault_one<HM>(g, seed) : wfault_one<PM>(g, seed); },
+        [&](size_t i, const iso::Outcome& o) { if (o.cls == "done") os << o.text; else os << "WF " << jobs[i].id << " -1 0 " << o.cls << " 0 0 " << o.text << "\n"; },
+        600000, g_errfile);
+}
+
 int main(int argc, char** argv) {
     if (argc < 2) { fprintf(stderr, "usage: io_drv gen|read|mutate|faults ...\n"); return 2; }
     std::string mode = argv[1];
@@ -124,6 +161,8 @@ int main(int argc, char** argv) {
     if (mode == "gen" && argc >= 5) {
         bool thorough = std::string(argv[2]) == "thorough"; int shard = atoi(argv[3]), ns = atoi(argv[4]);
         mode_gen(thorough, seed, shard, ns, std::cout);
+    } else if (mode == "wfaults" && argc >= 5) {
+        mode_wfaults(std::string(argv[2]) == "thorough", seed, atoi(argv[3]), atoi(argv[4]), std::cout);
     } else if (mode == "read" && argc >= 3) {
         std::ifstream f(argv[2]); std::string line; std::vector<Job> jobs;
         while (std::getline(f, line)) {
